@@ -3,5 +3,5 @@ CONSTANTS
   VSumOk <- IntSumOk  VSumBetween <- IntSumBetween
   W <- W2  Kind <- KindPullPush  Bound = 5  Mags <- M2  MaxOps = 2  MaxReports = 2
 SPECIFICATION Spec
-INVARIANT StoredFieldsOk QuiescentExact
+INVARIANT StoredFieldsOk QuiescentExact OverflowWithinCountOk
 CHECK_DEADLOCK FALSE
